@@ -859,6 +859,50 @@ fn all_snapshot_scenarios() -> Vec<String> {
     out
 }
 
+// ------------------------------------------------------------------ family: resync (full synchronisation of a joining node, fed back through the real parser)
+fn scenario_resync(sc: &str) -> Result<Violations, String> {
+    // sc = "<strategy>|<value idx>|<removed key present: 0/1>"   the primary holds database d (strategy), key a = value, optionally a removed (tombstoned) key g
+    use nundb::replication_ops::get_pendding_opps_since;
+    let p: Vec<&str> = sc.split('|').collect();
+    if p.len() != 3 { return Err("bad resync scenario".into()); }
+    let vals = ["v", "two words", "7 up", "x", "ação ✓"];
+    let val = vals[p[1].parse::<usize>().map_err(|_| "bad value idx")?];
+    let primary = mk_dbs();
+    let w = World { dbs: primary.clone() };
+    let (mut c, mut rx) = Client::new_empty_and_receiver();
+    for cmd in ["auth u p".to_string(), format!("create-db d tok {}", p[0]), "use-db d tok".to_string(), format!("set a {}", val), format!("set a {}", val)] { run_cmd(&w, &mut c, &mut rx, &cmd); }
+    if p[2] == "1" {
+        run_cmd(&w, &mut c, &mut rx, "set g gone");
+        { let m = primary.map.read().unwrap(); let db = m.get("d").unwrap(); let e = db.get_value("g".into()).unwrap(); db.set_value_as_ok(&"g".to_string(), &e, 1, 2, e.opp_id); }
+        run_cmd(&w, &mut c, &mut rx, "remove g");
+    }
+    let mut v: Violations = vec![];
+    let lines = match catch_unwind(AssertUnwindSafe(|| get_pendding_opps_since(0, &primary))) { Ok(l) => l, Err(_) => { v.push("C10.safety".into()); return Ok(v); } };
+    // ---- the joining node: an empty node that receives the lines the way a peer sends them (authenticated replication session)
+    let joiner = mk_dbs();
+    let wj = World { dbs: joiner.clone() };
+    let (mut cj, mut rxj) = Client::new_empty_and_receiver();
+    run_cmd(&wj, &mut cj, &mut rxj, "auth u p");
+    for l in &lines { if catch_unwind(AssertUnwindSafe(|| run_cmd(&wj, &mut cj, &mut rxj, l))).is_err() { v.push("C10.safety".into()); return Ok(v); } }
+    let pm = primary.map.read().unwrap(); let pd = pm.get("d").unwrap();
+    let jm = joiner.map.read().unwrap();
+    let jd = match jm.get("d") { Some(d) => d, None => { chk(&mut v, "C05.full-sync-covers-every-database", false); return Ok(v); } };
+    chk(&mut v, "C05.full-sync-covers-every-database", jd.get_value("$$token".into()).map(|e| e.value) == pd.get_value("$$token".into()).map(|e| e.value));
+    // ---- same conflict strategy
+    chk(&mut v, "C05.create-db-line-carries-strategy", jd.metadata.consensus_strategy == pd.metadata.consensus_strategy);
+    // ---- values byte for byte, same versions
+    let pa = pd.get_value("a".into()).unwrap(); let ja = jd.get_value("a".into());
+    chk(&mut v, "C05.sync-line-carries-version", ja.as_ref().map_or(false, |e| e.value == pa.value && e.version == pa.version && e.state != ValueStatus::Deleted));
+    // ---- a key removed on the primary is not alive on the joiner
+    if p[2] == "1" { chk(&mut v, "C05.sync-skips-removed-keys", jd.get_value("g".into()).map_or(true, |e| e.state == ValueStatus::Deleted)); }
+    Ok(v)
+}
+fn all_resync_scenarios() -> Vec<String> {
+    let mut out = vec![];
+    for st in ["none", "newer", "arbiter"] { for vi in 0..5 { for g in ["0", "1"] { out.push(format!("{}|{}|{}", st, vi, g)); } } }
+    out
+}
+
 // ------------------------------------------------------------------ family: election (single calls of election_eval / start_new_election on one node)
 fn scenario_election(sc: &str) -> Result<Violations, String> {
     // sc = "<role>.<members>.<own start time>.<candidate start time | new>"   role in {s,p,c} (StartingUp / Primary / Secoundary), members in {1,2}
@@ -1015,7 +1059,8 @@ fn families() -> Vec<(&'static str, fn() -> Vec<String>, fn(&str) -> Result<Viol
          ("keymap", all_keymap_scenarios, scenario_keymap),
          ("http", all_http_scenarios, scenario_http),
          ("election", all_election_scenarios, scenario_election),
-         ("snapshot", all_snapshot_scenarios, scenario_snapshot)]
+         ("snapshot", all_snapshot_scenarios, scenario_snapshot),
+         ("resync", all_resync_scenarios, scenario_resync)]
 }
 
 fn main() {
